@@ -15,6 +15,24 @@ CLAIMED = {
     },
 }
 
+CLAIMED.update({
+    "C17": {
+        "text": "All 12 non-identity component conversions are driven through change_type_of_pixel_components_typed on 2x1/1x1 images with both component values symbolic, i.e. every pair of u8 / u16 / i32 / f32 bit patterns (incl. NaN, +-inf) is decided at once: endpoints, monotonicity, saturation of out-of-range floats, widening round trips (u8->u16/i32/f32->u8, u16->i32/f32->u16), per-component placement for multi-component pixels, rejection of different dimensions (sizes 0..2 symbolic) and of different component counts through the dynamic entry point (type pairs enumerated: 4 quick, 31 thorough).",
+        "note": "Trusted: Kani/CBMC/CaDiCaL incl. CBMC's IEEE-754 float encoding; oracles in kh/src/c17.rs. Two endpoint deviations of the pinned tree (u8/u16 -> i32 map max to max<<23 / max<<15 instead of i32::MAX) are listed in known_findings.json.",
+        "design": "5/C17",
+    },
+    "C02": {
+        "text": "For each of the 8 integer pixel types and each of SSE4.1 and AVX2, the real horizontal and vertical kernels (real dispatch, real intrinsics sequence with 40 intrinsics replaced by differential-tested scalar models) are proven equal to the closed-form fixed-point specification clamp((sum c*px + 2^(p-1)) >> p) for ALL image contents, over an enumerated residue matrix of window lengths, row counts (4-row block and leftover rows), non-zero source offsets and row widths; the portable kernels are proven equal to the same specification, so SIMD == portable byte for byte on these shapes.",
+        "note": "Coefficient windows are synthetic (distinct sparse values under the interface invariant) and injected at the Normalizer boundary; geometry/shape is enumerated, not symbolic (quick: 32 shapes, thorough: ~230). Alpha SIMD==scalar is decided under C06. F32/I32 kernels and NEON/WASM are outside the claim. Trusted: x86 intrinsic models (x86_model.rs; native differential self-test against this CPU runs before every SIMD obligation).",
+        "design": "5/C02",
+    },
+    "C10": {
+        "text": "With the REAL quantised coefficients of enumerated geometries (built-in filters, crops, up/down-scales), the real horizontal and vertical kernels map a uniform image of symbolic value v (all 256 / 65536 values at once) to exactly v, on the portable and AVX2/SSE4.1 back-ends; the partition premise sum(c)=2^p+e, |e|*max<2^(p-1) of every real window is also checked concretely at generation time.",
+        "note": "Geometries enumerated (3 quick, ~30 thorough incl. seeded random ones); float pixel types outside the claim; the float stage is executed natively (fstage), not explored symbolically.",
+        "design": "5/C10",
+    },
+})
+
 NA = {
     "C16": "table entries are powf values (transcendental; CBMC over-approximates powf, SMT has no theory) and table construction needs 2x(2*256+2*65536) closure calls, beyond any unwinding bound that finishes; see DESIGN.md section 6",
 }
